@@ -168,6 +168,28 @@ def check_golay_fresh(args):
             entry, x, e, d, wt(e))
     return None
 
+def check_golay_many_objects(args):
+    """decoding does not depend on how many other Golay objects exist or have decoded in between (caches of per-object
+    set-up work have a size): object g0 decodes, `others` further objects each decode once, then g0 and a new object
+    decode words with <= 3 errors and clean words again"""
+    x, e, others = args["x"], args["e"], args["others"]
+    g0 = golay.Golay()
+    v = ref_encode(x) ^ e
+    d0 = g0.decode(v)
+    pool = []
+    for i in range(others):
+        g = golay.Golay()
+        g.decode(ref_encode((x + i) % 4096) ^ (1 << (i % 24)))
+        pool.append(g)
+    for name, g in (("the first object", g0), ("a new object", golay.Golay()), ("an object in the middle", pool[len(pool) // 2] if pool else g0)):
+        for xx, ee in ((x, e), (x, 0), ((x * 7 + 1) % 4096, 0), (0xFFF, 0), ((x + 5) % 4096, e)):
+            d = g.decode(ref_encode(xx) ^ ee)
+            if wt(ee) <= 3 and d != xx:
+                return "after %d other Golay objects have decoded, %s decodes encode(%#x) ^ %#08x as %#x" % (others, name, xx, ee, d)
+    if wt(e) <= 3 and d0 != x:
+        return "Golay.decode(encode(%#x) ^ %#08x) = %#x" % (x, e, d0)
+    return None
+
 def oracles_C11(ctx, hints):
     rng = ctx.rng
     fails = []
@@ -203,6 +225,11 @@ def oracles_C11(ctx, hints):
                 e = 1 << rng.randrange(12, 24)
         if run("golay_fresh", check_golay_fresh, {"x": x, "e": e, "entry": "bytes" if i % 2 == 0 else "int"},
                {"class": "Golay", "check": "corrects"}):
+            break
+    for others in (1, 2, 19, 20, 21, 127, 128, 129, 130, 257) + ((1025,) if ctx.tier == "thorough" else ()):
+        n += 1
+        if run("golay_many_objects", check_golay_many_objects, {"x": rng.randrange(4096), "e": rng.choice(PAT3[1:]), "others": others},
+               {"class": "Golay", "check": "corrects", "directed": "many_objects"}):
             break
     big = getattr(ctx, "search_mode", False) or ctx.tier == "thorough"
     vals = [0, 1, 0x800, 0xFFF, 0x555, 0xAAA, 0x001, 0x7FF] + [rng.randrange(4096) for _ in range(ctx.scale(8, 64))]
@@ -1296,7 +1323,7 @@ def corr_C13(ctx):
     return lines
 
 ORACLES = {
-    "golay_word": check_golay_word, "golay_pattern": check_golay_pattern, "golay_fresh": check_golay_fresh,
+    "golay_word": check_golay_word, "golay_pattern": check_golay_pattern, "golay_fresh": check_golay_fresh, "golay_many_objects": check_golay_many_objects,
     "ptdp_robust": check_ptdp_robust, "ptfr_robust": check_ptfr_robust,
     "ch7_encap": check_encap, "ch7_decap": check_decap, "ch7_nollp": check_nollp,
     "ptdp_accept": check_ptdp_accept, "golay_bytes": check_golay_bytes, "ptfr_accept": check_ptfr_accept,
